@@ -406,6 +406,26 @@ impl Stream for C13 {
         for (name, p) in acceptance_cases() {
             cases.push(Case { kind: "model", labels: vec!["acceptance".into()], request: node("c13-body", vec![node("name", vec![st(name)]), p.sexp()]) });
         }
+        // handlers inside nested object / gadget / attached binding maps cannot be connected: each must be refused with a
+        // diagnostic, never accepted and dropped (1..3 handlers per map)
+        let nm = if thorough { 600 } else { 60 };
+        for k in 0..nm {
+            let mut rng = Rng::fork(seed, "c13-map", k as u64);
+            let map = *rng.pick(&["next", "peer", "derived", "font", "sizePolicy", "QLayout"]);
+            let mut names = vec![];
+            for _ in 0..(1 + rng.below(3)) {
+                let sig = *rng.pick(&["Fired", "Fired2", "IChanged", "Moved", "Defaulted", "NoSuch"]);
+                names.push(format!("{map}.on{sig}"));
+            }
+            names.sort();
+            names.dedup();
+            let (_, params, _) = SIGNALS[0];
+            let mut g = Gen::new(&mut rng, 0);
+            let p = g.callback(params, 1);
+            let mut a = vec![node("names", names.iter().map(|n| st(n.clone())).collect())];
+            a.push(p.sexp());
+            cases.push(Case { kind: "oracle", labels: vec!["handler-in-map".into(), format!("map:{map}")], request: node("c13-must-reject", a) });
+        }
         let n = if thorough { 6_000 } else { 900 };
         for k in 0..n {
             let mut rng = Rng::fork(seed, "c13-body", k as u64);
@@ -445,6 +465,45 @@ impl Stream for C13 {
                     }
                 }
                 self.run_batch(&states, &sigargs, &handlers)
+            }
+            "c13-must-reject" => {
+                let (_, ns) = args[0].as_node().unwrap();
+                let names: Vec<String> = ns.iter().map(|n| n.as_str().unwrap().to_owned()).collect();
+                let program = ast::program_of(&args[1]);
+                // all handlers of the map in one document, on object `a`
+                let mut text = String::new();
+                for (i, n) in names.iter().enumerate() {
+                    if i > 0 {
+                        text.push_str("\n        ");
+                    }
+                    text.push_str(&format!("{n}: {}", program.print(8).trim_end()));
+                }
+                let first = names[0].clone();
+                let rest = text[first.len() + 2..].to_owned();
+                let src = crate::streams::ir::document_raw(&first, &rest);
+                let t = env::translate(&self.tm, &src, "MyType", Mode::Generate);
+                if t.syntax_errors > 0 {
+                    return node("syntax-error", vec![st(src)]);
+                }
+                let errors: Vec<&env::Diag> = t.diags.iter().filter(|d| d.is_error).collect();
+                // every handler needs an error diagnostic inside its own text
+                for n in &names {
+                    let Some(at) = src.find(&format!("{n}:")) else { return node("fail", vec![st("handler text not found")]) };
+                    let end = src[at..].find('\n').map(|e| at + e).unwrap_or(src.len());
+                    // block bodies span lines: extend to the start of the next handler or the closing brace of the object
+                    let next = names.iter().filter_map(|m| src.find(&format!("{m}:"))).filter(|&p| p > at).min().unwrap_or(src.len());
+                    let end = end.max(next.min(src.len()));
+                    if !errors.iter().any(|d| d.start >= at && d.start < end) {
+                        return node(
+                            "fail",
+                            vec![st(format!("handler {n} inside a binding map has no error diagnostic of its own (accepted = {}, {} error(s) elsewhere)", t.accepted(), errors.len()))],
+                        );
+                    }
+                }
+                if t.accepted() {
+                    return node("fail", vec![st("document with handlers inside a binding map accepted")]);
+                }
+                node("ok", vec![atom("rejected"), crate::sexp::num(errors.len())])
             }
             "c13-body" => {
                 let (_, n) = args[0].as_node().unwrap();
